@@ -60,6 +60,7 @@ def make_schema(variant=0):
         body=fields.TEXT(analyzer=ana, phrase=True, chars=(variant % 2 == 1), vector=True),
         title=fields.TEXT(analyzer=ana, phrase=(variant % 3 != 2), sortable=False),
         blob=fields.STORED,
+        sid=fields.STORED,
         tags=fields.KEYWORD(stored=True, sortable=True, lowercase=False, commas=False, scorable=True),
         num=fields.NUMERIC(int, bits=32, stored=True, sortable=True),
         big=fields.NUMERIC(int, bits=64, stored=True, sortable=True),
@@ -238,7 +239,15 @@ class CWorld(object):
                                    multisegment=self.cfg.get("multisegment", False), **kw)
             else:
                 w = self.ix.writer(**kw)
-            if step[0] == "commit":
+            if step[0] == "commit" and opts.get("storedonly"):
+                # documents that carry stored values only (the key too is stored without being indexed):
+                # the segment has no postings at all
+                for k in step[1]:
+                    kw2 = concrete_kwargs(adocs[k])
+                    kw2["sid"] = kw2.pop("key")          # stored-only stand-in for the key
+                    w.add_document(**kw2)
+                w.commit(merge=opts.get("merge", True), optimize=opts.get("optimize", False))
+            elif step[0] == "commit":
                 self._add_all(w, step[1], adocs)
                 w.commit(merge=opts.get("merge", True), optimize=opts.get("optimize", False))
             else:
@@ -264,7 +273,8 @@ class CWorld(object):
 def abstract_index(reader, adocs):
     docs = []
     for dn in range(reader.doc_count_all()):
-        k = reader.stored_fields(dn)["key"]
+        sf = reader.stored_fields(dn)
+        k = sf["key"] if "key" in sf else sf["sid"]
         d = adocs[k]
         docs.append({"live": not reader.is_deleted(dn),
                      "t": {f: d["t"].get(f, []) for f in TEXT_FIELDS}, "n": {},
@@ -302,10 +312,10 @@ def dump(reader, idx, schema, rng=None, maxterms=40, columns=True, vectors=True,
     """The canonical logical dump of `reader` as ContentCheck observations."""
     obs = []
     if plan is not None:
-        obs.append({"kind": "livekeys", "keys": [sf["key"] for sf in reader.all_stored_fields()], "ops": plan_ops(plan)})
+        obs.append({"kind": "livekeys", "keys": [(sf["key"] if "key" in sf else sf["sid"]) for sf in reader.all_stored_fields()], "ops": plan_ops(plan)})
     if groups:
         obs.append({"kind": "grouporder", "path": "documents of a writer.group() stay adjacent",
-                    "order": [sf["key"] for sf in reader.all_stored_fields()], "groups": groups})
+                    "order": [(sf["key"] if "key" in sf else sf["sid"]) for sf in reader.all_stored_fields()], "groups": groups})
 
     def guard(path, fn):
         try:
